@@ -39,6 +39,8 @@ func runC17(r *hk.Run) {
 	g.forbiddenCases()
 	g.rerunCases()
 	g.sessionCases()
+	g.nestedCases()
+	g.concurrentCases()
 	g.setFilesCases()
 	g.streamCases()
 	g.protoCases()
